@@ -25,7 +25,19 @@ public:
         for (auto&& elem : thread_info_table_) {
             if (elem.gain_the_right()) {
                 YAKUSHIMA_VERIF_POINT(SLOT_ACQUIRED, &elem);
-                elem.set_begin_epoch(epoch_management::get_epoch());
+                /**
+                 * Publish the begin epoch and confirm that the global epoch did not
+                 * advance before the publication. Until it is published this session is
+                 * invisible to the epoch thread, so an epoch read earlier may be
+                 * arbitrarily stale; garbage retired by this session under a stale epoch
+                 * could be released while older sessions still read it.
+                 */
+                for (;;) {
+                    const Epoch cur_epoch = epoch_management::get_epoch();
+                    elem.set_begin_epoch(cur_epoch);
+                    std::atomic_thread_fence(std::memory_order_seq_cst);
+                    if (cur_epoch == epoch_management::get_epoch()) { break; }
+                }
                 token = &(elem);
                 return status::OK;
             }
